@@ -837,7 +837,7 @@ class Interp(object):
             if o == "Neg" and isinstance(x, int):
                 return -x
             raise Undecided("unary %s on %s" % (o, type(x).__name__))
-        if k == "ref":
+        if k in ("ref", "rawptr"):
             loc = self.resolve(st, rv["place"])
             if loc[0] == "local" and len(loc) == 3:
                 loc = ("local", loc[1], loc[2], st.frame)
@@ -1038,6 +1038,22 @@ class Interp(object):
                     raise Undecided("fold over more than 64 elements")
                 acc = self.exec_closure(st, args[2], [acc, nx.fields[0]])
             return acc
+        if c in ("core::bool::<impl bool>::then", "core::bool::<impl bool>::then_some") and len(args) == 2:
+            cnd = args[0]
+            if isinstance(cnd, UBool):
+                dd = self.decide(st, cnd)
+                cnd = None if dd is None else (1 if dd else 0)
+            if isinstance(cnd, BV):
+                cnd = cnd.concrete()
+            if not isinstance(cnd, int):
+                raise Undecided("bool::then on a condition that is unknown on this path")
+            if not cnd:
+                return Adt("core::option::Option", 0, "None", [])
+            if c.endswith("then_some"):
+                return Adt("core::option::Option", 1, "Some", [args[1]])
+            if isinstance(args[1], Closure):
+                return Adt("core::option::Option", 1, "Some", [self.exec_closure(st, args[1], [])])
+            raise Undecided("bool::then with an unmodelled closure")
         if c in self.prog.fns and self.depth < 4:
             return self.exec_fn(st, self.prog.fns[c], args)
         raise Undecided("call of %s" % c)
